@@ -507,7 +507,8 @@ Section Machine.
   Inductive cmd :=
   | CInitial (o : first_opts) | CResharing (o : prop_opts) | CJoin (f : join_file)
   | CAccept | CReject | CExecute | CAbort | CNone.
-  (* c_sig: the signature signMessage produced (randomised Schnorr: chosen by the environment);
+  (* c_sig: the signature signMessage produced over the gossiped packet (an input here: the model
+     has no signing function; the scheme's BLS signatures are deterministic in key and message);
      c_gossip_fail: some send to a joiner/remainer failed after all retries *)
   Record command := mkCmd { c_md : option bytes; c_body : cmd; c_sig : bytes; c_gossip_fail : bool }.
 
